@@ -26,9 +26,11 @@ def main(argv):
             return 1
         print("setup ok")
         return 0
-    if argv[0] == "--differs":
+    if argv[0] in ("--differs", "--differs-visible"):
         prop, casefile = argv[1], argv[2]
         cfg = registry()[prop]
+        if argv[0] == "--differs-visible":
+            return cfg["differs"](prop, cfg, casefile, visible=True)
         return cfg["differs"](prop, cfg, casefile)
     if argv[0] == "--replay":
         from . import replay
